@@ -243,6 +243,7 @@ static ares_status_t ares_parse_dns_name_escape(ares_buf_t *namebuf,
 
 static ares_status_t ares_split_dns_name(ares_array_t *labels,
                                          ares_bool_t   validate_hostname,
+                                         ares_bool_t   is_complete,
                                          const char   *name)
 {
   ares_status_t status;
@@ -310,16 +311,21 @@ static ares_status_t ares_split_dns_name(ares_array_t *labels,
     }
   }
 
-  /* Remove trailing blank label */
-  if (ares_buf_len(ares_dns_labels_get_last(labels)) == 0) {
-    ares_dns_name_labels_del_last(labels);
-  }
+  /* A complete name may end in "." (or be "." or empty for the root).  The
+   * labels in front of a compression pointer are only part of a name, there a
+   * blank label is what it is: invalid. */
+  if (is_complete) {
+    /* Remove trailing blank label */
+    if (ares_buf_len(ares_dns_labels_get_last(labels)) == 0) {
+      ares_dns_name_labels_del_last(labels);
+    }
 
-  /* If someone passed in "." there could have been 2 blank labels, check for
-   * that */
-  if (ares_array_len(labels) == 1 &&
-      ares_buf_len(ares_dns_labels_get_last(labels)) == 0) {
-    ares_dns_name_labels_del_last(labels);
+    /* If someone passed in "." there could have been 2 blank labels, check for
+     * that */
+    if (ares_array_len(labels) == 1 &&
+        ares_buf_len(ares_dns_labels_get_last(labels)) == 0) {
+      ares_dns_name_labels_del_last(labels);
+    }
   }
 
   /* Scan to make sure label lengths are valid */
@@ -387,7 +393,9 @@ ares_status_t ares_dns_name_write(ares_buf_t *buf, ares_llist_t **list,
   if (off == NULL || off->name_len != orig_name_len) {
     size_t i;
 
-    status = ares_split_dns_name(labels, validate_hostname, name_copy);
+    status = ares_split_dns_name(labels, validate_hostname,
+                                 off == NULL ? ARES_TRUE : ARES_FALSE,
+                                 name_copy);
     if (status != ARES_SUCCESS) {
       goto done;
     }
